@@ -353,7 +353,8 @@ def check_package_reader(data, content, order, title, byteorder):
 
 
 STRINGS = [['a', 'run', 'x'], ['', 'f1', 'long' * 80], ['name with spaces', 'z', '0'], ['tïtle', 'µ-run', 'ascii'],
-           ['trailing blank ', ' leading', 'tab\t'], [' ', 'line\n', 'two  blanks  ']]      # strings are content: blanks at either end included
+           ['trailing blank ', ' leading', 'tab\t'], [' ', 'line\n', 'two  blanks  '],      # strings are content: blanks at either end included
+           ['p' * 1023, 'q' * 1024, 'r' * 1025], ['s' * 255, 't' * 4097, 'u' * 65536]]        # "of any length": around the sizes where buffers and length fields change
 
 
 def run_cases(n, seed, want='structure', ascii_only=True, limit=3, thorough=False):
@@ -365,7 +366,7 @@ def run_cases(n, seed, want='structure', ascii_only=True, limit=3, thorough=Fals
     cases = 0
     perms = list(itertools.permutations(CALLS))
     for i in range(n):
-        strings = STRINGS[(0, 1, 2, 4, 5)[i % 5]] if ascii_only else STRINGS[3]
+        strings = STRINGS[(0, 1, 2, 4, 5, 6, 7)[i % 7]] if ascii_only else STRINGS[3]
         title = (strings[i % len(strings)] + ' title' + ('' if i % 3 else ' ')) if i % 4 else ''
         n_pix = int([0, 1, 7, 9, 10, 20, 100, 1000][i % 8] if i % 16 < 8 else rng.integers(0, 3000))
         chunk = [None, 1, 2, 3, 8, 9, 10, max(n_pix, 1), n_pix + 5, 8192][i % 10]
